@@ -40,6 +40,7 @@ Judge(e, mm, h, mseq) ==
          [] a.k = "timevar"   -> JudgeTimeVar(e)
          [] a.k = "weighted"  -> JudgeWeighted(e)
          [] a.k \in {"abs", "transit"} -> JudgeAbs(e, Apply(mm, a).abs, Apply(mm, a).transits)
+         [] a.k = "reread" -> V(None, None, None, None, None)      \* a generator step: nothing of this property to judge
          [] OTHER -> V("bad", None, None, None, None)
 
 \* one event = one action of the machine + the contract on the logged values
